@@ -610,9 +610,11 @@ def run_projection(chk):
     code proved) for every nested pair of supplied nucleotide models; postcondition: the rich model's rate matrix at the
     projected values is proportional to the simple model's at the nested values, for all positive parameter values and
     motif probabilities -- so after calibration the two processes, and their likelihoods, are equal"""
-    from cogent3.evolve.likelihood_function import _ParamProjection
+    from cogent3.evolve.likelihood_function import _ParamProjection, update_scoped_rules
     from cogent3.evolve.substitution_model import Stationary
-    fn = "evolve.likelihood_function._ParamProjection.update_param_rules"
+    fn = "evolve.likelihood_function._ParamProjection.update_param_rules+update_scoped_rules"
+    chk.function("cogent3/evolve/likelihood_function.py", "update_scoped_rules", "P")
+    chk.function("cogent3/evolve/likelihood_function.py", "update_rule_value", "P")
     chk.function("cogent3/evolve/likelihood_function.py", "_ParamProjection.update_param_rules", "P")
     chk.function("cogent3/evolve/likelihood_function.py", "_get_param_mapping", "P")
     ms, co, pairs = _nested_pairs()
@@ -632,31 +634,43 @@ def run_projection(chk):
         pre = [x > 0 for x in pi] + [v > 0 for v in vals.values()]
         if s_ in EQUAL_FREQS:
             pre += [x == z3.Q(1, 4) for x in pi]
-        try:
-            proj = _ParamProjection(sm, rm, pi, same=same)
-            rules = [dict(par_name=p_, init=v) for p_, v in vals.items()]
-            out = proj.update_param_rules(rules)
-        except Exception as e:
-            chk.undecided.append(f"{base}: the real code cannot be evaluated on symbolic reals ({type(e).__name__}: {e})")
-            continue
-        rich_vals = {p_: z3.RealVal(1) for p_ in rm.get_param_list()}        # a new function: every term at its default 1
-        ok_names = True
-        for o in out:
-            if o["par_name"] in rich_vals:
-                rich_vals[o["par_name"]] = o["init"] if z3.is_expr(o["init"]) else z3.RealVal(o["init"])
-            elif o["par_name"] != "ref_cell":
-                ok_names = False
-        QS = _symbolic_Q(co[s_], vals, pi, isinstance(sm, Stationary))
-        QR = _symbolic_Q(co[r_], rich_vals, pi, isinstance(rm, Stationary))
-        cells = sorted(QS)
-        ref = cells[0]
-        goal = z3.And(z3.BoolVal(ok_names), *[QR[c] * QS[ref] == QR[ref] * QS[c] for c in cells])
         chk.obligation(f"{base}/cover", "cover", cover_thunk(pre), function=fn)
-        chk.obligation(f"{base}/post.rich-Q-proportional-to-nested-Q", "post", smt_thunk(pre, goal, 60, logic="QF_NRA"),
-                       function=fn, key=f"C16/{fn}/post", replayer=_replay_projection(s_, r_))
+        for variant in ("free", "constant"):
+            # the nested function's rules as get_param_rules() writes them: free terms carry init + bounds, terms held
+            # constant carry value + is_constant; the rich function is new (every term free at its default 1.0)
+            if variant == "free":
+                rules = [dict(par_name=p_, init=v, lower=1e-6, upper=1e6) for p_, v in vals.items()]
+            else:
+                rules = [dict(par_name=p_, value=v, is_constant=True) for p_, v in vals.items()]
+                if not rules:
+                    continue
+            my_rules = [dict(par_name=p_, init=1.0, lower=1e-6, upper=1e6) for p_ in rm.get_param_list()]
+            try:
+                proj = _ParamProjection(sm, rm, pi, same=same)
+                out = proj.update_param_rules(rules)
+                merged = update_scoped_rules(my_rules, out)
+            except Exception as e:
+                chk.undecided.append(f"{base}/{variant}: the real code cannot be evaluated on symbolic reals ({type(e).__name__}: {e})")
+                continue
+            rich_vals = {p_: z3.RealVal(1) for p_ in rm.get_param_list()}
+            ok_names = True
+            for o in merged:
+                if o["par_name"] in rich_vals:
+                    v = o["init"] if "init" in o else o.get("value")
+                    rich_vals[o["par_name"]] = v if z3.is_expr(v) else z3.RealVal(v)
+                else:
+                    ok_names = False
+            QS = _symbolic_Q(co[s_], vals, pi, isinstance(sm, Stationary))
+            QR = _symbolic_Q(co[r_], rich_vals, pi, isinstance(rm, Stationary))
+            cells = sorted(QS)
+            ref = cells[0]
+            goal = z3.And(z3.BoolVal(ok_names), *[QR[c] * QS[ref] == QR[ref] * QS[c] for c in cells])
+            chk.obligation(f"{base}/post.rich-Q-proportional-to-nested-Q[{variant} nested terms]", "post",
+                           smt_thunk(pre, goal, 60, logic="QF_NRA"), function=fn, key=f"C16/{fn}/post",
+                           replayer=_replay_projection(s_, r_, variant == "constant"))
 
 
-def _replay_projection(s_, r_):
+def _replay_projection(s_, r_, constant=False):
     def rep(model):
         """native: initialise_from_nested on a small alignment reproduces the nested lnL"""
         import warnings
@@ -668,7 +682,11 @@ def _replay_projection(s_, r_):
         null = get_model(s_).make_likelihood_function(tree)
         null.set_alignment(aln)
         for i, p_ in enumerate(get_model(s_).get_param_list()):
-            null.set_param_rule(p_, init=(2.5, 0.4, 3.0, 0.7, 1.8)[i % 5])
+            v_ = (2.5, 0.4, 3.0, 0.7, 1.8)[i % 5]
+            if constant:
+                null.set_param_rule(p_, value=v_, is_constant=True)
+            else:
+                null.set_param_rule(p_, init=v_)
         alt = get_model(r_).make_likelihood_function(tree)
         alt.set_alignment(aln)
         try:
